@@ -1169,6 +1169,10 @@ func mentionsField(v ssa.Value, field string, depth int) bool {
 			return true
 		}
 		return mentionsField(x.X, field, depth-1)
+	case *ssa.IndexAddr:
+		return mentionsField(x.X, field, depth-1)
+	case *ssa.Index:
+		return mentionsField(x.X, field, depth-1)
 	}
 	return false
 }
